@@ -211,7 +211,7 @@ def build(ctx):
 
     for name, cc, sp in OPS:
         def rp(inputs, ctx, sp=sp):
-            rc, o, cmd = native.compile_run("replay_K06", REPLAY_CPP, [sp, inputs.get("g_in_x", 0), inputs.get("g_in_y", 0)])
+            rc, o, cmd = native.compile_run("replay_K06", REPLAY_CPP, [sp, inputs.get("g_in_x", 0), inputs.get("g_in_y", 0)], sanitize=True)
             return native.verdict_from_rc(rc, o), o, cmd
         kb.replayers["op:" + sp] = rp
     return kb
